@@ -4,14 +4,48 @@ From Coq Require Import ZArith Lia.
 From Trzsz Require Import Base.Bytes Gen.Consts Model.Path Model.Fs Model.Names Model.Escape Model.Base64
   Model.Wire Model.Transfer Proofs.PathFs Proofs.Names Proofs.Wire Proofs.TransferFs Proofs.TransferProgress.
 
-(* The model's reading of the source is pinned to what the translator found: the decision
-   list of isCompressFixed, the protocol switches, and the order of the per-file calls. *)
-Lemma transfer_src_ok :
-  Consts.tr_compress_rules = [(0, 3, true, 2); (1, 1, true, 1); (1, 2, true, 0); (2, 512, true, 0); (2, 131072, true, 1)] /\
-  Consts.tr_compress_default = (false, 0) /\
-  Consts.tr_compress_auto = 0 /\ Consts.tr_compress_yes = 1 /\ Consts.tr_compress_no = 2 /\
-  Consts.tr_proto_json_names = 3 /\ Consts.tr_proto_pipeline = 2 /\ Consts.tr_proto_archive = 4 /\
-  Consts.tr_resume_skipped_for_empty_target = true.
+(* The model's reading of the source is pinned to what the translator found.  isCompressFixed is
+   INTERPRETED from the regenerated decision list (so changed thresholds are followed, not refused);
+   what is pinned is that every rule is of a kind the interpreter knows.  The ORDER of the wire
+   operations, which the machines hard-code, is pinned call by call. *)
+Lemma transfer_rules_wf :
+  forallb (fun r => match r with (k, _, _, cv) => (k <? 3) && (cv <? 3) end) Consts.tr_compress_rules = true /\
+  (snd Consts.tr_compress_default <? 3) = true /\ Consts.tr_resume_skipped_for_empty_target = true.
+Proof. repeat split; reflexivity. Qed.
+
+Lemma transfer_calls_src_ok :
+  (* archiveSourceFiles sendFileNum sendFileNameV3 sendFileName sendFileSize sendFileDataV2 sendFileData sendFileMD5 *)
+  Consts.tr_send_files_calls = [[97; 114; 99; 104; 105; 118; 101; 83; 111; 117; 114; 99; 101; 70; 105; 108; 101; 115]; [115; 101; 110; 100; 70; 105; 108; 101; 78; 117; 109]; [115; 101; 110; 100; 70; 105; 108; 101; 78; 97; 109; 101; 86; 51]; [115; 101; 110; 100; 70; 105; 108; 101; 78; 97; 109; 101]; [115; 101; 110; 100; 70; 105; 108; 101; 83; 105; 122; 101]; [115; 101; 110; 100; 70; 105; 108; 101; 68; 97; 116; 97; 86; 50]; [115; 101; 110; 100; 70; 105; 108; 101; 68; 97; 116; 97]; [115; 101; 110; 100; 70; 105; 108; 101; 77; 68; 53]] /\
+  (* recvFileNum recvFileNameV3 recvFileName recvFileSize recvFileDataV2 recvFileData recvFileMD5 *)
+  Consts.tr_recv_files_calls = [[114; 101; 99; 118; 70; 105; 108; 101; 78; 117; 109]; [114; 101; 99; 118; 70; 105; 108; 101; 78; 97; 109; 101; 86; 51]; [114; 101; 99; 118; 70; 105; 108; 101; 78; 97; 109; 101]; [114; 101; 99; 118; 70; 105; 108; 101; 83; 105; 122; 101]; [114; 101; 99; 118; 70; 105; 108; 101; 68; 97; 116; 97; 86; 50]; [114; 101; 99; 118; 70; 105; 108; 101; 68; 97; 116; 97]; [114; 101; 99; 118; 70; 105; 108; 101; 77; 68; 53]] /\
+  (* sendCompressFlag *)
+  Consts.tr_send_data_first_call = [[115; 101; 110; 100; 67; 111; 109; 112; 114; 101; 115; 115; 70; 108; 97; 103]] /\
+  (* recvCompressFlag *)
+  Consts.tr_recv_data_first_call = [[114; 101; 99; 118; 67; 111; 109; 112; 114; 101; 115; 115; 70; 108; 97; 103]] /\
+  (* sendInteger checkInteger *)
+  Consts.tr_calls_send_num = [[115; 101; 110; 100; 73; 110; 116; 101; 103; 101; 114]; [99; 104; 101; 99; 107; 73; 110; 116; 101; 103; 101; 114]] /\
+  (* recvInteger sendInteger *)
+  Consts.tr_calls_recv_num = [[114; 101; 99; 118; 73; 110; 116; 101; 103; 101; 114]; [115; 101; 110; 100; 73; 110; 116; 101; 103; 101; 114]] /\
+  (* sendString recvString *)
+  Consts.tr_calls_send_name = [[115; 101; 110; 100; 83; 116; 114; 105; 110; 103]; [114; 101; 99; 118; 83; 116; 114; 105; 110; 103]] /\
+  (* recvString createDirOrFile createFile sendString *)
+  Consts.tr_calls_recv_name = [[114; 101; 99; 118; 83; 116; 114; 105; 110; 103]; [99; 114; 101; 97; 116; 101; 68; 105; 114; 79; 114; 70; 105; 108; 101]; [99; 114; 101; 97; 116; 101; 70; 105; 108; 101]; [115; 101; 110; 100; 83; 116; 114; 105; 110; 103]] /\
+  (* sendString recvString newArchiveReader sendPrefixHash *)
+  Consts.tr_calls_send_name_v3 = [[115; 101; 110; 100; 83; 116; 114; 105; 110; 103]; [114; 101; 99; 118; 83; 116; 114; 105; 110; 103]; [110; 101; 119; 65; 114; 99; 104; 105; 118; 101; 82; 101; 97; 100; 101; 114]; [115; 101; 110; 100; 80; 114; 101; 102; 105; 120; 72; 97; 115; 104]] /\
+  (* recvString createDirOrFile sendString recvPrefixHash *)
+  Consts.tr_calls_recv_name_v3 = [[114; 101; 99; 118; 83; 116; 114; 105; 110; 103]; [99; 114; 101; 97; 116; 101; 68; 105; 114; 79; 114; 70; 105; 108; 101]; [115; 101; 110; 100; 83; 116; 114; 105; 110; 103]; [114; 101; 99; 118; 80; 114; 101; 102; 105; 120; 72; 97; 115; 104]] /\
+  (* sendInteger checkInteger *)
+  Consts.tr_calls_send_size = [[115; 101; 110; 100; 73; 110; 116; 101; 103; 101; 114]; [99; 104; 101; 99; 107; 73; 110; 116; 101; 103; 101; 114]] /\
+  (* recvInteger sendInteger *)
+  Consts.tr_calls_recv_size = [[114; 101; 99; 118; 73; 110; 116; 101; 103; 101; 114]; [115; 101; 110; 100; 73; 110; 116; 101; 103; 101; 114]] /\
+  (* sendBinary checkBinary *)
+  Consts.tr_calls_send_md5 = [[115; 101; 110; 100; 66; 105; 110; 97; 114; 121]; [99; 104; 101; 99; 107; 66; 105; 110; 97; 114; 121]] /\
+  (* recvBinary sendBinary *)
+  Consts.tr_calls_recv_md5 = [[114; 101; 99; 118; 66; 105; 110; 97; 114; 121]; [115; 101; 110; 100; 66; 105; 110; 97; 114; 121]] /\
+  (* sendData checkInteger *)
+  Consts.tr_calls_send_data_v1 = [[115; 101; 110; 100; 68; 97; 116; 97]; [99; 104; 101; 99; 107; 73; 110; 116; 101; 103; 101; 114]] /\
+  (* recvData sendInteger *)
+  Consts.tr_calls_recv_data_v1 = [[114; 101; 99; 118; 68; 97; 116; 97]; [115; 101; 110; 100; 73; 110; 116; 101; 103; 101; 114]].
 Proof. repeat split; reflexivity. Qed.
 
 Ltac norm_app := repeat first [ progress (repeat rewrite <- app_assoc) | progress (cbn [app]) ].
